@@ -186,6 +186,19 @@ func (e *Engine) verifyFunction(fn *ssa.Function, fc *FuncContract) (c *Ctx) {
 		if len(f.rets) > 1 {
 			suffix = fmt.Sprintf("@ret%d", ri+1)
 		}
+		// ghost updates performed at the return (defines g = e): the ghost assignment is the last statement
+		for _, df := range fc.GhostDefs {
+			if df.Expr.Op != "binary" || df.Expr.Args[0].Op != "ident" {
+				c.errorf("%s: defines needs <ghost> = <expr>", df.Where)
+				continue
+			}
+			v, err := post.eval(df.Expr.Args[1])
+			if err != nil {
+				c.errorf("%s: defines: %v", df.Where, err)
+				continue
+			}
+			rt.st.ghosts[df.Expr.Args[0].Name] = v.T
+		}
 		for _, u := range fc.UseRets {
 			post.useAxiom(u)
 		}
@@ -209,6 +222,16 @@ func (e *Engine) verifyFunction(fn *ssa.Function, fc *FuncContract) (c *Ctx) {
 				if _, ok := exitsSeen[ex]; !ok {
 					exitsSeen[ex] = err
 				}
+				// the body mentions locals that are not live at this return: then the guard (over parameters and
+				// results only) must be false here, so that the clause says something about every return
+				if ex.Expr.Op == "binary" && ex.Expr.Name == "==>" {
+					if gd, gerr := post.evalBool(ex.Expr.Args[0]); gerr == nil {
+						f.oblige("exit"+ex.Tag()+suffix, ex, rt.reach, "(not "+gd+")")
+						continue
+					}
+				}
+				c.errorf("%s: exit %s cannot be evaluated at return %d and has no evaluable guard: %v", ex.Where, ex.Tag(), ri+1, err)
+				f.unbound("exit"+ex.Tag()+suffix, ex, err)
 				continue
 			}
 			if exitsSeen == nil {
